@@ -134,7 +134,10 @@ def _layouts(*recs):
     return rule
 
 
-PROPS["C02"]["rules"] = [_layouts(), rules_bounds.rule_F2_arrays, rules_dd.rule_F3, rules_dd.rule_F3b, rules_dd.rule_F11b, rules_dd.rule_F11c]
+_TRAIL_FILES = ("hblocks.c", "hchunks.c", "hextelt.c", "hfile.c", "hbuffer.c", "hcomp.c")
+_trail = lambda ctx: ctx.floor("TRAIL", 2, rules_coders.rule_trailing_pointer(ctx, files=_TRAIL_FILES), "(list-cursor advance sites with a trailing pointer)")
+PROPS["C02"]["rules"] = [_layouts(), rules_bounds.rule_F2_arrays, rules_dd.rule_F3, rules_dd.rule_F3b, rules_dd.rule_F11b, rules_dd.rule_F11c, _trail]
+PROPS["C02"]["explanation"] = PROPS["C02"]["explanation"].replace(" Not decided:", " (TRAIL) a block-table walk that keeps a trailing pointer for later linking re-establishes it at every advance. Not decided:")
 PROPS["C12"]["rules"] = PROPS["C12"]["rules"] + [_layouts("DD", "DDH")]
 PROPS["C20"]["rules"] = PROPS["C20"]["rules"] + [rules_bounds.rule_F2_strings]
 PROPS["C05"]["rules"] = PROPS["C05"]["rules"] + [_layouts("comp-header")]
@@ -183,6 +186,20 @@ PROPS["C11"] = {
     "level_text": "Exhaustive agreement of the twelve in-line type<->tag maps, the payload-layout siblings and the id<->tag/ref bijection with the format; a wrong arm in one of them passes every test that does not use that annotation kind through that entry point.",
     "level_note": "Trusted: clang front end and constant evaluator, build flags, the four tag numbers.",
     "technique": "switch-table and sibling-condition agreement over clang ASTs",
+}
+
+PROPS["C01"] = {
+    "rules": [(lambda ctx: ctx.floor("F7a", 8, rules_coders.rule_dispatch_tables(ctx, only=("special_func",)), "(dispatches through special_func)")),
+              rules_coders.rule_posn_siblings, _layouts("linked-header", "link-table", "external-header"),
+              (lambda ctx: ctx.floor("TRAIL", 2, rules_coders.rule_trailing_pointer(ctx, files=("hblocks.c", "hchunks.c", "hextelt.c", "hfile.c", "hbuffer.c", "hcomp.c")), "(list-cursor advance sites with a trailing pointer)"))],
+    "level": "other",
+    "explanation": "Decides structural necessary conditions of 'every data element is a growable byte array whatever its storage': (F7a) every special_func slot that hfile.c dispatches without a NULL test is a function in all six special-element tables (contiguous/linked/external/compressed/chunked/buffered/compressed-raster all implement every dispatched operation); (POSN) every read, write and seek function of every storage kind, and Hread/Hwrite/Hseek for plain elements, update access_rec->posn on every non-failing path; (F1) the linked-block header, the block table and the external-element header are written and read as the format specifies; (TRAIL) where a block-table walk keeps a trailing pointer that is read later, every advance of the cursor re-establishes it. Not decided: the block-walk arithmetic of HLPread/HLPwrite (which table a new block is recorded in), zero-fill of holes, the append-vs-promote decision, interleaved handles, the external-file retry path — all value-level.",
+    "rule_text": "instances = dispatch sites through special_func, read/write/seek functions of the storage kinds, layout rows of the linked/external records",
+    "trusted": [CLANG, CDB, "function pointers are resolved through the record field they are stored in"],
+    "assumptions": [],
+    "level_text": "Dispatch-completeness, bookkeeping-sibling and codec checks across all storage kinds: 'holds identically for every storage kind' needs each kind to implement each operation the same way, which tests exercise for one kind at a time.",
+    "level_note": "Trusted: clang front end, build flags, the transcribed layouts. The byte-level behaviour of the block walks is out of static reach and not claimed.",
+    "technique": "function-table resolution + must-update typestate + AST codec-layout comparison",
 }
 
 NOT_APPLICABLE = {
